@@ -34,6 +34,9 @@ def run(chk):
         ok = d.equal(got, ref)
         chk.ob(rule, inst, ok, '' if ok else f'source value differs from reference: {d.describe(got, ref)}', where, method='GF(p^2) PIT')
 
+    from .common import ArrayTwin
+    twin = ArrayTwin(chk, 'R12.8', it, d)
+
     def m_l(l):
         return X.const(2 * l * l + 4 * l + 3) / X.const(l) * mu / (rho * g * R)
 
@@ -116,6 +119,7 @@ def run(chk):
     inplace_lint(chk, repo, 'R12.5', ['TidalPy/tides/love1d.py', 'TidalPy/tides/modes/mode_manipulation.py'])
     chk.floor('R12.5', 2)
     chk.floor('R12.4', 14)
+    twin.finish(floor=6)
     chk.note_analysed('functions', 'mode_manipulation.collapse_modes')
     # R12.6 agreement with the layered solver's equations: exact homogeneous solution + surface condition + extraction == complex_love_general
     from . import legacy_solver
